@@ -1,6 +1,7 @@
 package main
 
 import (
+	"context"
 	"fmt"
 	"math"
 	"os"
@@ -27,12 +28,23 @@ import (
 // bit for bit) followed by the result serialised AFTER the call:
 // nLS | LS k (x y)* | panic | hang | toobig.
 //
-// `hang`: the append loop of resample() does not terminate when the computed total
-// length is not a positive finite number although the vertices differ.  Such inputs
-// (and only such inputs) are run in a child process of this binary under a watchdog
-// and an address-space limit; everything else runs in-process.
+// Inputs whose vertices differ while the computed total length is not a positive finite
+// number (and only those) are run in a child process of this binary under a watchdog and
+// an address-space limit; everything else runs in-process.  Before 8096037 the append loop
+// of resample() did not terminate on such inputs; since then it is bounded by
+// `step < totalPoints` (theorem resample_total), so the outcome `hang` is reachable by
+// mutants only.  The watchdog is generous (5 s; a probe takes ~10 ms) and a probe that did
+// not answer is repeated once, so that a scheduling stall on a loaded machine is not
+// reported as a hang of correct code.
+//
+// Resource screen (harness safety, not part of the judgement): more than 1e6 requested
+// points => `toobig` without calling the code.  ToInterval with total/d >= 2^63 (or d = NaN)
+// IS called: int(x) wraps to MinInt64 and the call fails at once in make(); the driver
+// classifies these inputs as outside the quantifier.
 
 const c17ProbeEnv = "ORBVERIF_C17_PROBE"
+
+const c17ProbeTimeout = 5 * time.Second
 
 func init() {
 	if v := os.Getenv(c17ProbeEnv); v != "" {
@@ -40,7 +52,7 @@ func init() {
 		var lim syscall.Rlimit
 		lim.Cur, lim.Max = 6<<30, 6<<30
 		_ = syscall.Setrlimit(syscall.RLIMIT_AS, &lim)
-		time.AfterFunc(120*time.Millisecond, func() {
+		time.AfterFunc(c17ProbeTimeout, func() {
 			fmt.Println("hang")
 			os.Exit(0)
 		})
@@ -118,7 +130,13 @@ func runC17(op string, in []string) string {
 	case "iv":
 		d := r.f()
 		if d > 0 && len(ls) > 0 {
-			points = total/d + 1
+			if x := total / d; x >= 9223372036854775808.0 {
+				// int(x) is out of range: the count wraps to a negative number and the call
+				// fails at once (makeslice / slice bounds); safe to run
+				points = 0
+			} else {
+				points = x + 1
+			}
 		}
 	}
 	if points > 1e6 {
@@ -128,21 +146,36 @@ func runC17(op string, in []string) string {
 	if !risky {
 		return sb.String() + " " + c17Call(op, in)
 	}
+	return sb.String() + " " + c17Probe(op, in)
+}
+
+// c17Probe runs one case in a child process under the watchdog; a probe that does not
+// answer (watchdog fired, or killed by the address-space limit before it fired) is repeated
+// once before it is reported as `hang`.
+func c17Probe(op string, in []string) string {
 	exe, err := os.Executable()
 	if err != nil {
-		return sb.String() + " noprobe"
+		return "noprobe"
 	}
-	cmd := exec.Command(exe)
-	cmd.Env = append(os.Environ(), c17ProbeEnv+"="+op+" "+strings.Join(in, " "))
-	outb, _ := cmd.Output()
-	res := strings.TrimSpace(string(outb))
-	if i := strings.LastIndex(res, "\n"); i >= 0 {
-		res = res[i+1:]
+	res := "hang"
+	for attempt := 0; attempt < 2; attempt++ {
+		ctx, cancel := context.WithTimeout(context.Background(), 3*c17ProbeTimeout)
+		cmd := exec.CommandContext(ctx, exe)
+		cmd.Env = append(os.Environ(), c17ProbeEnv+"="+op+" "+strings.Join(in, " "))
+		outb, _ := cmd.Output()
+		cancel()
+		res = strings.TrimSpace(string(outb))
+		if i := strings.LastIndex(res, "\n"); i >= 0 {
+			res = res[i+1:]
+		}
+		if res == "" {
+			res = "hang"
+		}
+		if res != "hang" {
+			break
+		}
 	}
-	if res == "" { // killed by the address-space limit before the watchdog fired
-		res = "hang"
-	}
-	return sb.String() + " " + res
+	return res
 }
 
 // ---------------------------------------------------------------------------
@@ -213,6 +246,76 @@ func c17GeoLine(c *Ctx, n int) orb.LineString {
 	return ls
 }
 
+// meridian / parallel walk in lon/lat: every segment keeps its longitude or its latitude.  On
+// such segments geo.Distance is linear in the interpolation parameter, so the spacing clause
+// measured with geo.Distance itself must hold (it does not on oblique segments: known finding
+// C17-geo-spacing-nonlinear).
+func c17GeoAxisLine(c *Ctx, n int) orb.LineString {
+	r := c.Rng
+	ls := make(orb.LineString, 0, n)
+	p := orb.Point{(r.Float64()*2 - 1) * 150, (r.Float64()*2 - 1) * 70}
+	if r.Intn(3) == 0 {
+		p = orb.Point{math.Round(p[0]), math.Round(p[1])}
+	}
+	spread := []float64{1e-4, 0.01, 1, 8}[r.Intn(4)]
+	if n > 20 {
+		spread /= 16 // long lines: stay away from the poles and the antimeridian
+	}
+	for i := 0; i < n; i++ {
+		ls = append(ls, p)
+		s := (r.Float64()*2 - 1) * spread
+		switch r.Intn(5) {
+		case 0: // repeated vertex
+		case 1, 2:
+			if q := p[0] + s; math.Abs(q) < 175 {
+				p[0] = q
+			}
+		default:
+			if q := p[1] + s; math.Abs(q) < 85 {
+				p[1] = q
+			}
+		}
+	}
+	return ls
+}
+
+// long-line family: 50..200 vertices resampled to about 1e4 points (5000..15000); the
+// integer axis-aligned kind, which the driver judges in exact rational arithmetic (slow), has
+// 50..100 vertices and 1000..3000 points
+func c17LongCase(c *Ctx) {
+	r := c.Rng
+	n := 50 + r.Intn(151)
+	N := 5000 + r.Intn(10001)
+	var ls orb.LineString
+	df := "pl"
+	switch r.Intn(6) {
+	case 0:
+		n = 50 + r.Intn(51)
+		N = 1000 + r.Intn(2001)
+		ls = c17AxisLine(c, n, []int{4, 1000}[r.Intn(2)])
+	case 1, 2:
+		ls = c17FloatLine(c, n, CoordFloat)
+	case 3:
+		ls = c17FloatLine(c, n, CoordHalf)
+	case 4:
+		ls = c17GeoLine(c, n)
+		df = "geo"
+	default:
+		ls = c17GeoAxisLine(c, n)
+		df = "geo"
+	}
+	if r.Intn(2) == 0 {
+		c17Case(c, "rs", df, ls, strconv.Itoa(N))
+		return
+	}
+	total := c17Len(ls, c17DF(df))
+	d := total / float64(N-1) * []float64{1, 1, 1.0000001, 0.9999999, 1 + r.Float64()*1e-3}[r.Intn(5)]
+	if r.Intn(8) == 0 {
+		d = math.Inf(1)
+	}
+	c17Case(c, "iv", df, ls, fb(d))
+}
+
 func c17Len(ls orb.LineString, df orb.DistanceFunc) float64 {
 	t := 0.0
 	for i := 0; i+1 < len(ls); i++ {
@@ -225,7 +328,7 @@ func c17Len(ls orb.LineString, df orb.DistanceFunc) float64 {
 // length exactly, dyadic and decimal fractions
 func c17Intervals(c *Ctx, total float64) []float64 {
 	r := c.Rng
-	ds := []float64{0, -1, -0.5, 1, 2, 3, 0.5, 0.25, 0.75, 1.5, 0.1, 0.3}
+	ds := []float64{0, -1, -0.5, 1, 2, 3, 0.5, 0.25, 0.75, 1.5, 0.1, 0.3, math.Inf(1), 1e300}
 	if total > 0 && !math.IsInf(total, 0) {
 		ds = append(ds, total, total/2, total/3, total/4, total/5, total/7, total*2, total+1, total*1.0000001, total*0.9999999,
 			total/float64(r.Intn(12)+1), total*r.Float64(), total*(0.02+r.Float64()))
@@ -307,7 +410,7 @@ func genC17(c *Ctx) {
 				for n := 1; n <= 12; n++ {
 					c17Case(c, "rs", "pl", ls, strconv.Itoa(n))
 				}
-				for _, d := range []float64{0.5, 1, 2, 3, 0.75, total, total / 2, total / 4, total + 1, total / 3} {
+				for _, d := range []float64{0.5, 1, 2, 3, 0.75, total, total / 2, total / 4, total + 1, total / 3, math.Inf(1)} {
 					if d > 0 {
 						c17Case(c, "iv", "pl", ls, fb(d))
 					}
@@ -346,8 +449,50 @@ func genC17(c *Ctx) {
 		c17Case(c, "rs", "geo", orb.LineString{{0, 0}, {0, 1e-320}}, "2")
 	}
 
+	// --- fixed family 5 (shard 0 only): the interval argument at the edge of / outside "d > 0":
+	// +Inf (one point), NaN (neither > 0 nor <= 0), and d so small that total/d >= 2^63 (the
+	// requested count is not representable: int() wraps, make() panics).  The driver judges the
+	// first and classifies the others as outside the quantifier (skip nan-interval /
+	// unrepresentable-count), so that they are seen in every run rather than never generated.
+	if c.Shard == 0 {
+		edge := []orb.LineString{
+			{{0, 0}, {1, 0}},
+			{{0, 0}, {3, 4}, {3, 4}},
+			{{2, 2}, {2, 2}, {2, 2}}, // all-equal: total = 0, one point whatever d is
+		}
+		for _, ls := range edge {
+			for _, d := range []float64{math.Inf(1), math.NaN(), 1e-19, 1e-300, 5e-324, 1e300} {
+				c17Case(c, "iv", "pl", ls, fb(d))
+			}
+		}
+		c17Case(c, "iv", "geo", orb.LineString{{0, 0}, {0, 1}}, fb(1e-300))
+		c17Case(c, "iv", "geo", orb.LineString{{0, 0}, {0, 1}, {1, 1}}, fb(math.Inf(1)))
+	}
+
+	// --- fixed family 6 (shard 0 only): great-circle distance on long oblique segments (the
+	// reviewer's witness of the known finding C17-geo-spacing-nonlinear) and on meridians /
+	// parallels of the same size, where the clause holds
+	if c.Shard == 0 {
+		for _, ls := range []orb.LineString{
+			{{0, 0}, {60, 80}},
+			{{0, 0}, {0, 80}},
+			{{0, 40}, {60, 40}},
+			{{10, 10}, {10, 50}, {70, 50}, {70, 50}, {70, -20}},
+		} {
+			for _, n := range []int{2, 3, 7} {
+				c17Case(c, "rs", "geo", ls, strconv.Itoa(n))
+			}
+			c17Case(c, "iv", "geo", ls, fb(c17Len(ls, geo.Distance)/4))
+		}
+	}
+
 	// --- random cases
+	longEvery := 400
 	for i := 0; i < c.Budget && !c.Exhausted(); i++ {
+		if r.Intn(longEvery) == 0 {
+			c17LongCase(c)
+			continue
+		}
 		n := 2 + r.Intn(7)
 		if r.Intn(12) == 0 {
 			n = r.Intn(2)
@@ -366,7 +511,11 @@ func genC17(c *Ctx) {
 		case 6, 7:
 			ls = c17FloatLine(c, n, CoordFloat)
 		case 8:
-			ls = c17GeoLine(c, n)
+			if r.Intn(3) == 0 {
+				ls = c17GeoAxisLine(c, n)
+			} else {
+				ls = c17GeoLine(c, n)
+			}
 			df = "geo"
 		default: // all-equal line, arbitrary coordinates
 			p := genPoint(r, CoordFloat)
